@@ -1010,3 +1010,32 @@ Theorem lex_layout_invariant : forall v ts l1 l2,
   lex_view v (render ts l1) = Some (map tk_tok ts) /\
   lex_view v (render ts l2) = Some (map tk_tok ts).
 Proof. intros. split; apply lex_render; assumption. Qed.
+
+(* ------------------------------------------------------------------ separators INSIDE a multi-word keyword
+   The layout of [lex_render] has, per token, the whitespace runs between the words of a multi-word keyword
+   ([s_inner], constrained only by [inner_ok]: one non-empty run of whitespace bytes per continuation word,
+   of ANY length and any mix of space / TAB / LF / FF / CR).  Stated on its own: the keyword, written with
+   arbitrary such runs and followed by the end of input, is one token. *)
+Theorem multiword_internal_separators : forall v k inner,
+  tk_ok (KMulti k) = true -> inner_ok (KMulti k) inner = true ->
+  lex_view v (tk_text (KMulti k) inner) = Some [(k, [], false)].
+Proof.
+  intros v k inner Hok Hin.
+  pose (l := {| l_lead := []; l_slots := [ {| s_inner := inner; s_after := [] |} ]; l_tail := None |}).
+  assert (E : render [KMulti k] l = tk_text (KMulti k) inner).
+  { unfold render, l. cbn [l_lead l_slots l_tail sep_text render_slots s_inner s_after tail_text app].
+    rewrite !app_nil_r. reflexivity. }
+  rewrite <- E. change [(k, [], false)] with (map tk_tok [KMulti k]).
+  apply lex_render.
+  - cbn [forallb]. rewrite Hok. reflexivity.
+  - unfold wf_layout, l. cbn [l_lead l_slots l_tail forallb slots_ok s_inner s_after]. rewrite Hin. reflexivity.
+  - unfold separating, l. cbn [l_slots l_tail separating_slots s_after render_slots tail_text app].
+    unfold gap_ok. cbn [guard andb]. reflexivity.
+Qed.
+
+(* a whitespace run of any length is admissible *)
+Lemma ws_run_ok_repeat : forall b n, is_ws b = true -> ws_run_ok (repeat b (S n)) = true.
+Proof.
+  intros b n H. cbn [repeat ws_run_ok forallb]. rewrite H. cbn [andb].
+  induction n as [|n IH]; cbn [repeat forallb]; [reflexivity|]. rewrite H. exact IH.
+Qed.
